@@ -1,0 +1,80 @@
+//go:build verif
+
+package join_template
+
+// Contracts for the verification harness under /verif (comment-only file).
+//
+// C15 (multi-line reassembly), join_template: the plugin is the join action with
+// two callbacks.  firstCheck decides "this line starts a run" and remembers WHICH
+// template started it; nextCheck decides "this line continues the run" with the
+// continue matcher of that template, negated iff the template says so.
+//
+// up_start(k, v) / up_cont(k, v) name the verdict of template k's start / continue
+// matcher on the line v (the matchers are function values held in p.templates; they
+// are pure and deterministic - each one is under a `pure` contract in
+// template/zz_verif_contracts.go).  The call-site clauses tie a call to its name by
+// the INDEX of the template (rangeindex / p.curTemplateIdx), not by the function
+// value that is called: govc has no handle on the callee of a dynamic call.
+//
+// firstCheck: a start line is reported iff some template's start matcher accepts
+// it; the remembered index is the FIRST such template; a line that starts nothing
+// leaves the remembered index alone (the run in progress keeps its template).
+// The continue matcher must not be consulted here (guard clause).
+//
+// nextCheck: result = continue-verdict of the remembered template XOR its Negate.
+// Precondition: the remembered index is a valid index.  It is established by
+// firstCheck (ensures#1) whenever it reports a start, and the join action calls
+// NextCheck only while isJoining, which it sets only after FirstCheck returned true
+// (join.Do, proved there as part of its single-step table); Start's -1 is therefore
+// never seen by nextCheck.  This last step is an argument over join.Do's contract,
+// not an obligation proved here (the call goes through a function value).
+//
+// Start: the template list is non-empty, has one entry per configured name (the
+// list `templates` wins over the deprecated `template`), every entry has both
+// matchers; the remembered index starts at -1; the join action underneath gets this
+// plugin's max_event_size and no negate of its own (negation is nextCheck's job).
+// Not provable: that FirstCheck / NextCheck handed to join are p.firstCheck /
+// p.nextCheck - a bound method value is an opaque identifier in govc.
+
+//@ func (*Plugin).firstCheck
+//@   modifies p.curTemplateIdx
+//@   ensures result ==> 0 <= p.curTemplateIdx && p.curTemplateIdx < len(p.templates) && up_start(p.curTemplateIdx, value)
+//@   ensures result ==> (forall k :: 0 <= k && k < p.curTemplateIdx ==> !up_start(k, value))
+//@   ensures !result ==> p.curTemplateIdx == old(p.curTemplateIdx)
+//@   ensures !result ==> (forall k :: 0 <= k && k < len(p.templates) ==> !up_start(k, value))
+//@   loop 1 invariant -1 <= rangeindex && rangeindex < len(p.templates) && p.curTemplateIdx == old(p.curTemplateIdx)
+//@   loop 1 invariant forall k :: 0 <= k && k <= rangeindex ==> !up_start(k, value)
+//@   callee StartCheck(v) (r)
+//@     pure
+//@     requires off(v) == off(value) && len(v) == len(value)
+//@     ensures r == up_start(rangeindex, v)
+//@   callee ContinueCheck(v) (r)
+//@     requires false
+
+//@ func (*Plugin).nextCheck
+//@   pure
+//@   requires 0 <= p.curTemplateIdx && p.curTemplateIdx < len(p.templates)
+//@   ensures result == (up_cont(p.curTemplateIdx, value) != p.templates[p.curTemplateIdx].Negate)
+//@   callee ContinueCheck(v) (r)
+//@     pure
+//@     requires off(v) == off(value) && len(v) == len(value)
+//@     ensures r == up_cont(p.curTemplateIdx, v)
+//@   callee StartCheck(v) (r)
+//@     requires false
+
+//@ func (*Plugin).Start
+//@   option allow-exit yes
+//@   requires typeis(config, "*github.com/ozontech/file.d/plugin/action/join_template.Config") && params != nil
+//@   ensures p.curTemplateIdx == -1
+//@   ensures len(p.templates) >= 1
+//@   ensures len(p.config.Templates) > 0 ==> len(p.templates) == len(p.config.Templates)
+//@   ensures len(p.config.Templates) == 0 ==> len(p.templates) == 1
+//@   ensures forall k :: 0 <= k && k < len(p.templates) ==> !isnil(p.templates[k].StartCheck) && !isnil(p.templates[k].ContinueCheck)
+//@   loop 1 invariant -1 <= rangeindex && rangeindex < len(p.config.Templates) && len(templates) == rangeindex + 1
+//@   loop 1 invariant forall k :: 0 <= k && k < len(templates) ==> !isnil(templates[k].StartCheck) && !isnil(templates[k].ContinueCheck)
+//@   callee Start(c, prm)
+//@     requires c.MaxEventSize == p.config.MaxEventSize && !c.Negate
+//@     requires prm == params
+//@     preserves Plugin, Config, Template
+//@   callee Desugar() (l)
+//@     pure
